@@ -1,5 +1,6 @@
 //! Kani harnesses for orx-concurrent-iter. Everything is compiled against /repo's working tree.
 //! Modules that need the atomic hook are only built with `--cfg orx_concurrent_iter_verif`.
+#![cfg_attr(kani, feature(allocator_api))]
 #![allow(static_mut_refs)]
 #![allow(clippy::all)]
 
@@ -11,6 +12,8 @@ pub mod seq;
 mod h_seq;
 #[cfg(kani)]
 mod h_more;
+#[cfg(kani)]
+mod h_c17;
 #[cfg(kani)]
 mod h_bound;
 
